@@ -237,10 +237,12 @@ def fresh(seed=0, auto_executor=True):
     loop = VLoop(auto_executor=auto_executor)
     loop.install()
     determ.reset(seed, loop)
+    loop.arm_watchdog(int(__import__('os').environ.get('VERIF_WATCHDOG_S', '60')))
     return loop
 
 
 def done(loop):
+    loop.disarm_watchdog()
     loop.uninstall()
     loop.shutdown()
     determ.unbind()
